@@ -54,3 +54,8 @@ package preflight
 //@   loop 1 invariant [C11] len(violations) == 0 ==> (forall a int, i int, b int, j int :: 0 <= a && a < len(phases) && 0 <= i && i < len(phases[a].Objects) && phases[a].Objects[i].Object.Object != nil && 0 <= b && b < len(phases) && 0 <= j && j < len(phases[b].Objects) && phases[b].Objects[j].Object.Object != nil && a < idx && b < idx && (a != b || i != j) ==> dupKeyOf(phases[a].Objects[i].Object) != dupKeyOf(phases[b].Objects[j].Object))
 //@   loop 2 invariant [C11] forall a int, i int :: 0 <= a && a < len(phases) && 0 <= i && i < len(phases[a].Objects) && phases[a].Objects[i].Object.Object != nil && (a < idx1 || (a == idx1 && i < idx)) ==> (dupKeyOf(phases[a].Objects[i].Object) in visited)
 //@   loop 2 invariant [C11] len(violations) == 0 ==> (forall a int, i int, b int, j int :: 0 <= a && a < len(phases) && 0 <= i && i < len(phases[a].Objects) && phases[a].Objects[i].Object.Object != nil && 0 <= b && b < len(phases) && 0 <= j && j < len(phases[b].Objects) && phases[b].Objects[j].Object.Object != nil && (a < idx1 || (a == idx1 && i < idx)) && (b < idx1 || (b == idx1 && j < idx)) && (a != b || i != j) ==> dupKeyOf(phases[a].Objects[i].Object) != dupKeyOf(phases[b].Objects[j].Object))
+
+// An object that brings ownerReferences of its own - controller reference or not - is refused.
+//@ func package-operator.run/internal/preflight.(*NoOwnerReferences).Check
+//@   ensures [C11] err == nil
+//@   ensures [C11] old(ownerRefCount(obj)) != 0 ==> len(violations) > 0
